@@ -10,6 +10,21 @@ NOTE_COMMON = ("Trusted: Verus 0.2026.09.13 + Z3; the extractor's logged rewrite
                "std/serde_json stand-ins listed in evidence.coverage.trusted_base (external_body / assume_specification / uninterp); ")
 
 CLAIMED = {
+    "C08": {
+        "text": "Proof, for ONE GENERATED INSTANCE and the dispatch / stub clauses of the property only: for the code the repository's own generator emits (regenerated from the tree "
+                "under test on every run) for the repository's interface definition org.varlink.certification, the server dispatch hands a request whose method is `<interface>.<Method>` "
+                "to exactly the implementation method of that name, with exactly the values the request's parameters decode to, each in its own position; a method that takes parameters "
+                "and gets none is answered with InvalidParameter(parameters), ill-typed parameters with InvalidParameter and an error return, a method the interface lacks with "
+                "MethodNotFound naming it; the dispatch meets the library's contract for Interface::call (one answer per request); every generated client stub builds a MethodCall whose "
+                "method is `<interface>.<Method>` and whose arguments are the stub's parameters under the field names of the interface definition. NOT claimed: any other interface "
+                "definition (the generator's templates are quote! code and are not verified as such), the JSON shape serde derives for the generated types (enums, maps, string sets, "
+                "optionals), replies and declared errors, and the client/server round trip of values.",
+        "note": NOTE_COMMON + "G1: the verified text is the output of varlink-rust-generator built from the tree under test (formatted with rustfmt when available; raw-identifier prefixes of non-keywords "
+                "dropped); the expected wire names are computed from the interface definition text by tools/mkgencert.py, the method list and parameter types are read from the generator's "
+                "output when the fragment is written (a changed method list makes the check UNDECIDED); parameter bindings named `int` / `r#struct` are renamed (the fields are not); "
+                "MethodCall::new, the user implementation of the interface (whose preconditions are the obligations) and serde_json::from_value are stand-ins with assumed contracts.",
+        "ref": "5-C08",
+    },
     "C11": {
         "text": "Proof, for the DUPLICATE-DETECTION / MIRRORING SLICE of the property only: IDL::from_token, for every member list the grammar can hand it, records the member names "
                 "of each kind in order of appearance, keys each map by exactly those names, puts a message naming every name that is defined twice (within or across methods, types "
@@ -149,7 +164,6 @@ CLAIMED = {
 }
 
 NOT_APPLICABLE = {
-    "C08": "quantifies over every program the generator can emit; the behaviour lives in quote! templates and serde_derive output, not in functions a contract can be attached to (DESIGN.md section 7)",
     "C09": "'the emitted Rust compiles' is rustc's type checker applied to an unbounded family of outputs; panic sites are inside syn::parse_str (DESIGN.md section 7)",
     "C10": "relates the format!/String layout printer to the peg-generated parser; Verus has no str/format! reasoning and Kani exhausts memory on format! (DESIGN.md section 7)",
     "C12": "totality of the macro-generated recursive-descent parser over arbitrary Unicode and nesting; no function-level contract within the verifier's reach (DESIGN.md section 7)",
